@@ -14,14 +14,16 @@ APIS = ["fetch_offsets", "list_offsets", "fetch_messages", "produce", "commit", 
 T1 = b"t1"
 
 
-def cluster_spec():
-    return {"brokers": brokers(2), "topics": {T1: [1, 1, 1], b"t2": [2]},
+def cluster_spec(layout="one"):
+    # "one": t1 wholly led by broker 1; "spread": its partitions alternate between the two brokers, so that a call's answer for t1
+    # is put together from two replies (the failing partition's reply may be the first or the second one processed)
+    return {"brokers": brokers(2), "topics": {T1: [1, 1, 1] if layout == "one" else [1, 2, 1], b"t2": [2]},
             "logs": {(T1, 0): [("plain", 0, b"k", b"v0")], (T1, 1): [("plain", 0, None, b"v1")],
                      (T1, 2): [("plain", 0, None, b"v2")], (b"t2", 0): [("plain", 0, None, b"w")]}}
 
 
-def make_case(api, code, pos):
-    spec = cluster_spec()
+def make_case(api, code, pos, layout="one"):
+    spec = cluster_spec(layout)
     ops = boot_ops(spec)
     inj = None
     if api == "fetch_offsets":
@@ -57,12 +59,13 @@ def make_case(api, code, pos):
         spec["inject"] = [("produce", T1, pos, code, -1)]
         ops += [T("producer_build", [T("from_client"), [T("with_required_acks", [1])]]),
                 T("send", [[T("r", [T1, pos, b"k", b"v"])]])]
-    return {"cluster": spec, "ops": ops, "meta": {"api": api, "code": code, "pos": pos},
-            "id": "C11-%s-%d-%d" % (api, code, pos)}
+    return {"cluster": spec, "ops": ops, "meta": {"api": api, "code": code, "pos": pos, "layout": layout},
+            "id": "C11-%s-%d-%d-%s" % (api, code, pos, layout)}
 
 
 def gen(rng, tier):
     cases = []
+    n = 0
     for api in APIS:
         codes = list(ALL_CODES)
         if tier == "quick":
@@ -74,7 +77,12 @@ def gen(rng, tier):
             if tier == "quick" and api not in ("fetch_offsets", "fetch_messages"):
                 positions = [rng.choice(positions)]
             for pos in positions:
-                cases.append(make_case(api, code, pos))
+                if tier == "quick":
+                    n += 1
+                    cases.append(make_case(api, code, pos, "spread" if n % 2 else "one"))
+                else:
+                    cases.append(make_case(api, code, pos, "one"))
+                    cases.append(make_case(api, code, pos, "spread"))
     return cases
 
 
@@ -159,4 +167,4 @@ def nontrivial(case, recs):
 def stats(case, recs):
     m = case["meta"]
     return {"api:" + m["api"]: 1, "code_class:" + ("zero" if m["code"] == 0 else "declared" if 1 <= m["code"] <= 35 else "unmapped"): 1,
-            "pos:%d" % m["pos"]: 1}
+            "pos:%d" % m["pos"]: 1, "layout:" + m.get("layout", "one"): 1}
